@@ -232,26 +232,34 @@ Qed.
 Lemma all_up_sh_complete : forall u : up_sh, In u all_up_sh.
 Proof. intros [ |[|]| | | | | | | ]; simpl; tauto. Qed.
 
+Lemma all_pkind_complete : forall k : pkind, In k all_pkind. Proof. fin. Qed.
+
 Theorem all_vs_shapes_complete : forall s : vs_shape, In s all_vs_shapes.
 Proof.
-  intros [|r|t l|u]; unfold all_vs_shapes.
+  intros [|r|t l|u|k]; unfold all_vs_shapes.
   - left; reflexivity.
   - right. apply in_or_app. left. apply in_map, all_route_sh_complete.
   - right. apply in_or_app. right. apply in_or_app. left.
     apply in_flat_map. exists t. split; [apply all_tls_sh_complete | apply in_map, all_bool_complete].
-  - right. apply in_or_app. right. apply in_or_app. right. apply in_map, all_up_sh_complete.
+  - right. do 2 (apply in_or_app; right). apply in_or_app. left. apply in_map, all_up_sh_complete.
+  - right. do 3 (apply in_or_app; right). apply in_map, all_pkind_complete.
 Qed.
 
 Theorem all_vsr_shapes_complete : forall s : vsr_shape, In s all_vsr_shapes.
 Proof.
-  intros [|r|u]; unfold all_vsr_shapes.
+  intros [|r|u| |]; unfold all_vsr_shapes.
   - left; reflexivity.
-  - right. apply in_or_app. left. apply in_map, all_route_sh_complete.
-  - right. apply in_or_app. right. apply in_map, all_up_sh_complete.
+  - do 3 right. apply in_or_app. left. apply in_map, all_route_sh_complete.
+  - do 3 right. apply in_or_app. right. apply in_map, all_up_sh_complete.
+  - right; left; reflexivity.
+  - right; right; left; reflexivity.
 Qed.
 
 Lemma all_vctx_complete : forall c : vctx, In c all_vctx. Proof. fin. Qed.
-Lemma all_rctx_complete : forall c : rctx, In c all_rctx. Proof. fin. Qed.
+Lemma all_rctx_complete : forall c : rctx, In c all_rctx.
+Proof.
+  intros [|k]; unfold all_rctx; [left; reflexivity | right; apply in_map, all_pkind_complete].
+Qed.
 Lemma all_tctx_complete : forall c : tctx, In c all_tctx. Proof. fin. Qed.
 Lemma all_ts_listener_complete : forall l : ts_listener, In l all_ts_listener. Proof. fin. Qed.
 
@@ -349,6 +357,30 @@ Proof.
   rewrite forallb_forall in H. specialize (H c (all_rctx_complete _)).
   rewrite forallb_forall in H. specialize (H s (all_vsr_shapes_complete _)).
   unfold no_panic in H. rewrite Hp in H. discriminate.
+Qed.
+
+(* the guard of the regex/exact branch of validateVirtualServerRouteSubroutes is what makes
+   [routes[0]] safe: a VirtualServerRoute without subroutes is valid stand-alone and is
+   re-validated during arbitration; with the guard weakened to [len(routes) > 1] the index panics *)
+Definition revalidate_subroutes_weak (k : pkind) (subs : list route) : R bool :=
+  match k with
+  | PkPrefix => Val (existsb (fun r => validate_route true r || negb (rt_match r)) subs)
+  | _ => if Nat.ltb 1 (List.length subs) then Val true
+         else r0 <- index0 subs ;; if negb (rt_match r0) then Val true else Val (validate_route true r0)
+  end.
+
+Lemma revalidation_guard_needed :
+  validate_vsr false (vsr_of VrBare) = false /\
+  revalidate_subroutes PkExact (vr_subroutes (vsr_of VrBare)) = Val true /\
+  revalidate_subroutes_weak PkExact (vr_subroutes (vsr_of VrBare)) = Pan /\
+  revalidate_subroutes_weak PkRegex (vr_subroutes (vsr_of VrBare)) = Pan.
+Proof. vm_compute. repeat split. Qed.
+
+(* the re-validation never panics, for subroute lists of any length *)
+Lemma revalidate_subroutes_total : forall k subs, exists b, revalidate_subroutes k subs = Val b.
+Proof.
+  intros k subs. destruct k; simpl; eauto;
+    (destruct subs as [|r [|r' t]]; simpl; eauto; destruct (rt_match r); simpl; eauto).
 Qed.
 
 Definition ts_sweep_with gen : bool :=
